@@ -5,7 +5,6 @@
 // are children of the paragraph), every unexpected token is wrapped in an ERROR node and counted.
 // The contracts in parser.vspec prove that the real parser computes exactly these functions.
 // ---------------------------------------------------------------------------------------------
-pub type Tok = (SyntaxKind, Seq<char>);
 pub type Tree = rowan::Tree;
 
 pub open spec fn tok_view(t: (SyntaxKind, String)) -> Tok { (t.0, t.1@) }
